@@ -726,6 +726,41 @@ def run_c15(ctx):
                detail="offset %s, expected %s" % (offs.get("index_mut"), want))
     guarded_clause(ctx, "C15-d", "matrix::SquareMatrix", "index-offset", d)
 
+    zero_constructor_clause(ctx, "C15-d")
+
+
+def zero_constructor_clause(ctx, RID):
+    f = ctx.facts
+
+    def zeros():
+        # the storage abstraction reads `new_zeros(dim)` / `new_zeros_from_num(_, dim)` as the dim×dim zero matrix: decided here from the bodies
+        n_ = 0
+        for fn_ in f.items["fns"]:
+            if fn_.get("name") in ("new_zeros", "new_zeros_from_num") and "SquareMatrix" in (fn_.get("impl_self") or "") and fn_["path"] in f.mir:
+                b_ = f.mir[fn_["path"]]
+                ctx.fn(b_.path)
+                I = Interp(f)
+                me = Struct("SquareMatrix", {"data": Arr(("?",), lambda i: Num(Expr.leaf("data", i)), name="data"), "dim": Num(Expr.symbol("dim0"))})
+                first = me if fn_["name"] == "new_zeros" else Num(Expr.leaf("builder"))
+                res = I.run_fn(b_.path, [first, Num(Expr.symbol("dim"))])
+                ok = isinstance(res, Struct) and isinstance(res.fields.get("data"), Arr)
+                det = "result %r" % (res,)
+                if ok:
+                    d_ = res.fields["data"]
+                    size = I.derived_sizes.get(d_.classes[0])
+                    el = d_.at("i")
+                    ok = (isinstance(el, Num) and el.expr.simplified() == Expr.zero() and size is not None
+                          and size.simplified() == (Expr.symbol("dim") * Expr.symbol("dim")).simplified()
+                          and scalar_of(res.fields["dim"], "dim") == Expr.symbol("dim"))
+                    det = "element %s, extent %s, dim %s" % (el.expr.key() if isinstance(el, Num) else el, size.key() if size is not None else d_.classes[0],
+                                                           scalar_of(res.fields["dim"], "dim").key())
+                ctx.ob(RID, "%s builds dim·dim zeros with the given dim" % fn_["name"], ok, b_.path, "zero-constructor:" + fn_["name"], detail=det)
+                n_ += 1
+        if n_ == 0:
+            ctx.note("%s: no constructor is abstracted by name on this tree (bodies are evaluated where they are called)" % RID)
+
+    guarded_clause(ctx, RID, "matrix::SquareMatrix", "zero-constructor", zeros)
+
 
 def top_local(I, name):
     """Final value of a local of the top-level function, by name."""
@@ -737,6 +772,7 @@ def top_local(I, name):
 
 
 def cholesky_clause(ctx, RID):
+    zero_constructor_clause(ctx, RID)
     w = matrix_world(ctx)
     if not w.ok:
         return ctx.ob(RID, "decompose_for_tropical summarised", False, "matrix::SquareMatrix::decompose_for_tropical", "kernel-undecided", detail=w.error)
